@@ -203,55 +203,71 @@ fn c15_pstruct_new_in_place() {
 // C15 + C03: unsized struct, generated *Init emplacer with a nested flat_vec! (FromArray) emplacer
 // ------------------------------------------------------------------------------------------------------------------
 
-/// dispatch on a symbolic fill `k` to the array-typed emplacer flat_vec![e0, .., e(k-1)]
-macro_rules! with_flat_vec {
-    ($k:expr, $e:expr, |$fv:ident| $body:expr) => {
-        match $k {
-            0 => { let $fv = flat_vec![]; $body }
-            1 => { let $fv = flat_vec![$e[0]]; $body }
-            2 => { let $fv = flat_vec![$e[0], $e[1]]; $body }
-            3 => { let $fv = flat_vec![$e[0], $e[1], $e[2]]; $body }
-            4 => { let $fv = flat_vec![$e[0], $e[1], $e[2], $e[3]]; $body }
-            5 => { let $fv = flat_vec![$e[0], $e[1], $e[2], $e[3], $e[4]]; $body }
-            6 => { let $fv = flat_vec![$e[0], $e[1], $e[2], $e[3], $e[4], $e[5]]; $body }
-            _ => { let $fv = flat_vec![$e[0], $e[1], $e[2], $e[3], $e[4], $e[5], $e[6]]; $body }
-        }
-    };
-}
-const MAXK: usize = 7;
-
-/// UStruct (align 2): a@0, b@2..4, c = FlatVec<u8,u16> @4: length @4..6, elements @6+i; size = ceil(6 + k, 2).
-/// N = 13, fill k in 0..=7 (from empty to more than fits).
-#[kani::proof]
-#[kani::unwind(15)]
-fn c15_ustruct_new_in_place() {
-    const N: usize = 13;
+/// UStruct (align 2): a@0, b@2..4, c = FlatVec<u8,u16> @4: length @4..6, elements @6+i; size = ceil(6 + K, 2).
+/// One harness per array length K (the emplacer type FromArray<u8, K> depends on it); N = 11: every length 0..=11 and
+/// both offsets; K from empty (0) over full (4 at len 10/11) to more than fits (5).
+fn ustruct_from_array<const K: usize>() {
+    const N: usize = 11;
     let (len, off) = any_len_off(N, 2);
     let b = sym_slice(len, 2, off, N);
     let (a, bb): (u8, u16) = (kani::any(), kani::any());
-    let e: [u8; MAXK] = any_bytes();
-    let k: usize = kani::any();
-    kani::assume(k <= MAXK);
-    let r = with_flat_vec!(k, e, |fv| UStruct::new_in_place(b, UStructInit { a, b: bb, c: fv }));
-    let need = ceil_to(6 + k, 2);
+    let e: [u8; K] = any_bytes();
+    let r = UStruct::new_in_place(b, UStructInit { a, b: bb, c: flatty::vec::FromArray(e) });
+    let need = ceil_to(6 + K, 2);
     c15_outcome!(r, off, len, need);
     if let Ok(v) = r {
         assert!(v.a == a && v.b == bb);
-        assert!(v.c.len() == k, "C03: vector length differs from the emplaced array");
+        assert!(v.c.len() == K, "C03: vector length differs from the emplaced array");
         assert!(v.c.capacity() == floor_to(len, 2) - 6);
         assert!(v.size() == need, "C03/C05: size() is not the documented size of the content");
         let s = v.c.as_slice();
         let img = v.as_bytes();
         assert!(img.len() == floor_to(len, 2));
-        assert!(img[0] == a && rd_u16(img, 2) == bb && rd_u16(img, 4) as usize == k);
+        assert!(img[0] == a && rd_u16(img, 2) == bb && rd_u16(img, 4) as usize == K);
         let mut i = 0;
-        while i < MAXK {
-            if i < k {
-                assert!(s[i] == e[i], "C03: element read back differs");
-                assert!(img[6 + i] == e[i], "C03: element byte image differs");
-            }
+        while i < K {
+            assert!(s[i] == e[i], "C03: element read back differs");
+            assert!(img[6 + i] == e[i], "C03: element byte image differs");
             i += 1;
         }
         assert!(UStruct::validate(b).is_ok());
     }
 }
+macro_rules! stamp {
+    ($name:ident, $unwind:expr, $body:expr) => {
+        #[kani::proof]
+        #[kani::unwind($unwind)]
+        fn $name() { $body }
+    };
+}
+stamp!(c15_ustruct_from_array_k0, 13, ustruct_from_array::<0>());
+stamp!(c15_ustruct_from_array_k1, 13, ustruct_from_array::<1>());
+stamp!(c15_ustruct_from_array_k4, 13, ustruct_from_array::<4>());
+stamp!(c15_ustruct_from_array_k5, 13, ustruct_from_array::<5>());
+
+fn ustruct_probe<const K: usize>(len: usize, off: usize) {
+    const N: usize = 11;
+    let b = sym_slice(len, 2, off, N);
+    let (a, bb): (u8, u16) = (kani::any(), kani::any());
+    let e: [u8; K] = any_bytes();
+    let r = UStruct::new_in_place(b, UStructInit { a, b: bb, c: flatty::vec::FromArray(e) });
+    let need = ceil_to(6 + K, 2);
+    c15_outcome!(r, off, len, need);
+    if let Ok(v) = r {
+        assert!(v.a == a && v.b == bb);
+        assert!(v.c.len() == K, "C03: vector length differs from the emplaced array");
+        let s = v.c.as_slice();
+        let img = v.as_bytes();
+        assert!(img[0] == a && rd_u16(img, 2) == bb && rd_u16(img, 4) as usize == K);
+        let mut i = 0;
+        while i < K {
+            assert!(s[i] == e[i], "C03: element read back differs");
+            assert!(img[6 + i] == e[i], "C03: element byte image differs");
+            i += 1;
+        }
+        assert!(UStruct::validate(b).is_ok());
+    }
+}
+stamp!(c15_probe_aligned, 13, { let len: usize = kani::any(); kani::assume(len <= 11); ustruct_probe::<4>(len, 0) });
+stamp!(c15_probe_fixedlen, 13, { let off: usize = kani::any(); kani::assume(off < 2); ustruct_probe::<4>(10, off) });
+stamp!(c15_probe_concrete, 13, { ustruct_probe::<4>(10, 0) });
